@@ -1,34 +1,97 @@
-// Executor for C19: drives several redis.RedisLock objects on one key of a miniredis
+// Executor for C19: drives several redis.RedisLock objects on one or more keys of a miniredis
 // server (real Lua interpreter) through the public API and reports what every call returned.
+//
+// Store faults: a miniredis pre-hook answers the ONE command (EVALSHA/EVAL) of a chosen call
+// with a forged reply instead of executing it (error reply, nil, integer, bulk or status
+// string): the wrapper's error / unknown-reply branches.  Nothing of go-zero is replaced.
 package main
 
 import (
+	"context"
 	"io"
 	"log"
 	"reflect"
+	"strconv"
+	"strings"
+	"sync"
 	"time"
 
 	"github.com/alicebob/miniredis/v2"
+	"github.com/alicebob/miniredis/v2/server"
 	"github.com/zeromicro/go-zero/core/logx"
 	"github.com/zeromicro/go-zero/core/stores/redis"
 	"verifh/hx"
 )
 
 type Case struct {
-	ID  int     `json:"id"`
-	Key string  `json:"key"`
-	N   int     `json:"n"`
-	Ops [][]any `json:"ops"`
+	ID      int      `json:"id"`
+	Keys    []string `json:"keys"`
+	InstKey []int    `json:"inst_key"` // key index of every RedisLock object
+	Ops     [][]any  `json:"ops"`
 }
 
 type Out struct {
 	ID  int      `json:"id"`
 	IDs []string `json:"ids"`
-	Obs []any    `json:"obs"` // per op: [bool, errbool] or null
+	Obs []any    `json:"obs"` // per op: [bool, errbool] | {"ttl": ms|-1|-2} | null
 	Err string   `json:"err,omitempty"`
 }
 
 func num(v any) int64 { return int64(v.(float64)) }
+
+// go-zero caches one go-redis client (with its circuit breaker) per address for the life of the
+// process and the kernel hands a closed port out again: a server that has seen failing commands
+// stays open until the run is over, so that no later case inherits its breaker statistics.
+var parked []*miniredis.Miniredis
+
+type faulter struct {
+	mu    sync.Mutex
+	armed string // "" | "err" | "nil" | "int:N" | "bulk:S" | "status:S"
+	hits  int
+}
+
+func (f *faulter) hook(c *server.Peer, cmd string, args ...string) bool {
+	if cmd != "EVALSHA" && cmd != "EVAL" {
+		return false
+	}
+	f.mu.Lock()
+	a := f.armed
+	if a != "" {
+		f.hits++
+	}
+	f.mu.Unlock()
+	switch {
+	case a == "":
+		return false
+	case a == "err":
+		c.WriteError("ERR verif fault")
+	case a == "nil":
+		c.WriteNull()
+	case strings.HasPrefix(a, "int:"):
+		n, _ := strconv.Atoi(a[4:])
+		c.WriteInt(n)
+	case strings.HasPrefix(a, "bulk:"):
+		c.WriteBulk(a[5:])
+	case strings.HasPrefix(a, "status:"):
+		c.WriteInline(a[7:])
+	default:
+		return false
+	}
+	return true
+}
+
+func (f *faulter) arm(kind string) {
+	f.mu.Lock()
+	f.armed, f.hits = kind, 0
+	f.mu.Unlock()
+}
+
+func (f *faulter) disarm() int {
+	f.mu.Lock()
+	defer f.mu.Unlock()
+	f.armed = ""
+	return f.hits
+}
 
 func runCase(c Case) (out Out) {
 	out = Out{ID: c.ID}
@@ -42,34 +105,79 @@ func runCase(c Case) (out Out) {
 		out.Err = err.Error()
 		return
 	}
-	defer mr.Close()
+	failed := false
+	defer func() {
+		if failed {
+			parked = append(parked, mr)
+		} else {
+			mr.Close()
+		}
+	}()
+	f := &faulter{}
+	mr.Server().SetPreHook(f.hook)
 	store := redis.New(mr.Addr())
-	locks := make([]*redis.RedisLock, c.N)
+	locks := make([]*redis.RedisLock, len(c.InstKey))
 	for i := range locks {
-		locks[i] = redis.NewRedisLock(store, c.Key)
+		locks[i] = redis.NewRedisLock(store, c.Keys[c.InstKey[i]])
 		// the random id is private; it is case data for the model (read, never written)
 		out.IDs = append(out.IDs, reflect.ValueOf(locks[i]).Elem().FieldByName("id").String())
+	}
+	call := func(i int64, rel, ctx bool) []bool {
+		var ok bool
+		var err error
+		switch {
+		case rel && ctx:
+			ok, err = locks[i].ReleaseCtx(context.Background())
+		case rel:
+			ok, err = locks[i].Release()
+		case ctx:
+			ok, err = locks[i].AcquireCtx(context.Background())
+		default:
+			ok, err = locks[i].Acquire()
+		}
+		return []bool{ok, err != nil}
 	}
 	for _, op := range c.Ops {
 		switch op[0].(string) {
 		case "acq":
-			ok, err := locks[num(op[1])].Acquire()
-			out.Obs = append(out.Obs, []bool{ok, err != nil})
+			out.Obs = append(out.Obs, call(num(op[1]), false, len(op) > 2))
 		case "rel":
-			ok, err := locks[num(op[1])].Release()
-			out.Obs = append(out.Obs, []bool{ok, err != nil})
+			out.Obs = append(out.Obs, call(num(op[1]), true, len(op) > 2))
+		case "fault": // ["fault", i, "acq"|"rel", kind]
+			kind := op[3].(string)
+			if kind == "err" {
+				failed = true
+			}
+			f.arm(kind)
+			r := call(num(op[1]), op[2].(string) == "rel", false)
+			if hits := f.disarm(); hits != 1 {
+				out.Err = "fault intercepted " + strconv.Itoa(hits) + " commands"
+				return
+			}
+			out.Obs = append(out.Obs, r)
 		case "exp":
 			locks[num(op[1])].SetExpire(int(num(op[2])))
 			out.Obs = append(out.Obs, nil)
 		case "adv":
 			mr.FastForward(time.Duration(num(op[1])) * time.Millisecond)
 			out.Obs = append(out.Obs, nil)
-		case "poke":
-			mr.Set(c.Key, op[1].(string))
-			if t := num(op[2]); t > 0 {
-				mr.SetTTL(c.Key, time.Duration(t)*time.Millisecond)
+		case "poke": // ["poke", keyidx, value, ttl_ms]
+			k := c.Keys[num(op[1])]
+			mr.Set(k, op[2].(string))
+			if t := num(op[3]); t > 0 {
+				mr.SetTTL(k, time.Duration(t)*time.Millisecond)
 			}
 			out.Obs = append(out.Obs, nil)
+		case "ttl": // ["ttl", keyidx]
+			k := c.Keys[num(op[1])]
+			switch {
+			case !mr.Exists(k):
+				out.Obs = append(out.Obs, map[string]int64{"ttl": -2})
+			case mr.TTL(k) == 0:
+				out.Obs = append(out.Obs, map[string]int64{"ttl": -1})
+			default:
+				out.Obs = append(out.Obs, map[string]int64{"ttl": mr.TTL(k).Milliseconds()})
+			}
 		default:
 			out.Err = "unknown op"
 			return
@@ -85,6 +193,11 @@ func main() {
 	hx.ReadCases(&cases)
 	w := hx.NewWriter()
 	defer w.Close()
+	defer func() {
+		for _, mr := range parked {
+			mr.Close()
+		}
+	}()
 	for _, c := range cases {
 		w.Put(runCase(c))
 	}
